@@ -93,6 +93,24 @@ def check(ctx, src):
         for st in cls.body:
             if isinstance(st, ast.Assign) and isinstance(st.value, ast.Call) and (dotted(st.value.func) or "") in MODEL_CTORS:
                 shared.append(st)
+    # ... nor a model built once in a handler *factory* and captured by the handler it returns (one object for every use
+    # of the tag)
+    captured = []
+    for fn_ in [n for n in ast.walk(hr.tree) if isinstance(n, ast.FunctionDef)]:
+        inner = [n for n in ast.walk(fn_) if n is not fn_ and isinstance(n, (ast.Lambda, ast.FunctionDef))]
+        if not inner:
+            continue
+        built = {}
+        for st in fn_.body:
+            if isinstance(st, ast.Assign) and len(st.targets) == 1 and isinstance(st.targets[0], ast.Name) and isinstance(st.value, ast.Call) and (dotted(st.value.func) or "") in MODEL_CTORS | {"sym", "mkexpr"}:
+                built[st.targets[0].id] = st
+        for i_ in inner:
+            body_nodes = ast.walk(i_.body) if isinstance(i_, ast.Lambda) else (x for s_ in i_.body for x in ast.walk(s_))
+            for x in body_nodes:
+                if isinstance(x, ast.Name) and isinstance(x.ctx, ast.Load) and x.id in built:
+                    captured.append(built[x.id])
+    ctx.decide("POS-FRESH", f"{HR}|models captured by handlers", not captured, f"a model built once ({[norm(c)[:40] for c in captured]}) is captured by the handler closure and handed out on every use: fill_pos fills positions only once",
+               HR, captured[0].lineno if captured else 0, witness="'a 'b : the second quote symbol reports the first one's line and column", detail="models are built inside the handler")
     ctx.check(not shared, "POS-FRESH", f"{HR}|module-level models", f"module/class-level model objects {[norm(s)[:40] for s in shared]} are shared between forms: fill_pos fills positions only once, so later forms inherit the first one's",
               HR, shared[0].lineno if shared else 0, witness="the None in the second `.foo` of a file reports the position of the first", detail="none")
     ai = hr.func("as_identifier")
